@@ -10,14 +10,18 @@ HDR = ('#include "math_sweep.hh"\n#include "au/units/meters.hh"\n#include "au/un
 ROUND = [("Inches", "Feet"), ("Feet", "Inches"), ("Meters", "Feet"), ("Feet", "Meters"), ("Yards", "Meters"), ("Meters", "Milli<Meters>"), ("Milli<Meters>", "Meters"),
          ("Seconds", "Minutes"), ("Degrees", "Radians"), ("Radians", "Degrees"), ("Revolutions", "Degrees"), ("Meters", "Meters"), ("Miles", "Kilo<Meters>")]
 INV = [("Micro<Seconds>", "Hertz"), ("Nano<Seconds>", "Kilo<Hertz>"), ("Milli<Seconds>", "Milli<Hertz>"), ("Nano<Seconds>", "Hertz"), ("Pico<Seconds>", "Mega<Hertz>"),
-       ("Hertz", "Micro<Seconds>"), ("decltype(Micro<Seconds>{} / mag<7>())", "Hertz")]
+       ("Hertz", "Micro<Seconds>"), ("decltype(Micro<Seconds>{} / mag<7>())", "Hertz"),
+       # conversion constants beyond 2^53: the quotient must be the integer one (K = 10^12, 10^15, 10^18, 7 * 10^18, 3 * 10^18)
+       ("Pico<Seconds>", "Hertz"), ("Femto<Seconds>", "Hertz"), ("Atto<Seconds>", "Hertz"), ("Pico<Seconds>", "Micro<Hertz>"), ("Micro<Hertz>", "Pico<Seconds>"),
+       ("decltype(Atto<Seconds>{} / mag<7>())", "Hertz"), ("decltype(Atto<Seconds>{} / mag<3>())", "Hertz")]
+WIDE_ONLY = ("Pico", "Femto", "Atto")
 
 
 def run(ctx):
     ctx.rule = ("Layer A: the inversion lemma trunc(K / trunc(K / n)) = n for all K in [10^6, 10^6 + 1500] and 2000 multiples of 10^6, all n in 1..1000.  "
                 "Layer C: floor_/ceil_/round_{in,as} on 13 unit pairs (integer, reciprocal, rational and pi ratios) x {i32, i64, f32, f64} over integers in "
                 "+-2^16 and boundary/random doubles -- every result is judged by TLC against the exact value x ratio (ratio read out as a prime-power "
-                "pack; BigInt rationals, pi enclosure) with tolerance 2^(5-p) of the floating type the std function works in; inversions over 7 "
+                "pack; BigInt rationals, pi enclosure) with tolerance 2^(5-p) of the floating type the std function works in; inversions over 14 "
                 "time/frequency pairs x {i32, i64, u32, u64}: trunc(K/x) judged by TLC, round trip 1..1000 exhaustively; compile-time refusal of "
                 "integral inversions with K < 10^6 for every integral rep (probes with accepted twins); sin/cos/tan equal std on the value in "
                 "radians whose conversion TLC checks; hypot, fmod, remainder, abs, copysign, min, max, clamp, isnan, arc* equal the std function "
@@ -30,8 +34,8 @@ def run(ctx):
     ctx.layers["A"] = {"module": "MC_Inverse.tla", "distinct": a.distinct, "exhaustive": True}
     reps = ["i32", "i64", "f32", "f64"]
     items = [("round", u1, r, u2) for (u1, u2) in ROUND for r in reps]
-    items += [("inv", r, ut, uq) for (ut, uq) in INV for r in (["i32", "i64", "u32", "u64"] if "Pico" not in ut and "Nano<Seconds>\", \"Hertz" not in ut else ["i64", "u64"])]
-    items = [i for i in items if not (i[0] == "inv" and i[1] in ("i32", "u32") and ("Pico" in i[2] or (i[2] == "Nano<Seconds>" and i[3] == "Hertz")))]
+    items += [("inv", r, ut, uq) for (ut, uq) in INV for r in ["i32", "i64", "u32", "u64"]
+              if not (r in ("i32", "u32") and (any(w in ut + uq for w in WIDE_ONLY) or (ut == "Nano<Seconds>" and uq == "Hertz")))]
     items += [("trig", u, r) for u in ("Degrees", "Radians", "Revolutions", "Milli<Radians>") for r in reps]
     items += [("wrap", "Meters", "Feet", "f64"), ("wrap", "Inches", "Feet", "f32"), ("wrap", "Meters", "Meters", "f64"), ("wrap", "Milli<Meters>", "Yards", "f64")]
 
